@@ -11,6 +11,7 @@
  *
  * Everything printed is canonical (normalised field elements in hex, no addresses / timings).
  */
+#define _GNU_SOURCE
 #include <stdio.h>
 #include <stdlib.h>
 #include <string.h>
@@ -36,6 +37,9 @@
 #define F ((int)TORSION_PLUS_EVEN_POWER)
 #define MAXTOK 1200
 
+/* all result text goes to an in-memory stream and is written as one line per op (the library prints timing noise on stdout) */
+static FILE *OUT;
+
 /* ---------------------------------------------------------------- trace capture */
 static long tr[400000];
 static int trn;
@@ -49,14 +53,14 @@ trace_cb(int tag, int a, int b, int c)
 static void
 print_hexint(long v)
 {
-    if (v < 0) printf("-%lx", -v); else printf("%lx", v);
+    if (v < 0) fprintf(OUT, "-%lx", -v); else fprintf(OUT, "%lx", v);
 }
 static void
 print_trace(void)
 {
-    printf("R");
-    for (int i = 0; i < trn; i++) { printf(" "); print_hexint(tr[i]); }
-    printf("\n");
+    fprintf(OUT, "R");
+    for (int i = 0; i < trn; i++) { fprintf(OUT, " "); print_hexint(tr[i]); }
+    fprintf(OUT, "\n");
 }
 
 /* ---------------------------------------------------------------- printing field elements */
@@ -67,12 +71,12 @@ print_fp2(const fp2_t *a)
     fp2_encode(buf, a);
     int h = FP2_ENCODED_BYTES / 2;
     for (int part = 0; part < 2; part++) {
-        printf(part ? "," : " ");
+        fprintf(OUT, part ? "," : " ");
         int started = 0;
         for (int i = h - 1; i >= 0; i--) {
             unsigned char c = buf[part * h + i];
-            if (!started) { if (c == 0 && i > 0) continue; printf("%x", c); started = 1; }
-            else printf("%02x", c);
+            if (!started) { if (c == 0 && i > 0) continue; fprintf(OUT, "%x", c); started = 1; }
+            else fprintf(OUT, "%02x", c);
         }
     }
 }
@@ -80,7 +84,7 @@ print_fp2(const fp2_t *a)
 static void
 print_x(const ec_point_t *P)
 {
-    if (fp2_is_zero(&P->z)) { printf(" inf"); return; }
+    if (fp2_is_zero(&P->z)) { fprintf(OUT, " inf"); return; }
     fp2_t t = P->z, x;
     fp2_inv(&t);
     fp2_mul(&x, &P->x, &t);
@@ -219,9 +223,9 @@ op_even_e2e(int ntok, char **tok)
     }
     ec_biscalar_mul(&R, &E, c, d, &B);
 
-    printf("R n=%x above=%d dom", n, is_above);
+    fprintf(OUT, "R n=%x above=%d dom", n, is_above);
     print_A(&E);
-    printf(" pts");
+    fprintf(OUT, " pts");
     ec_point_t in[5] = { K, B.P, B.Q, B.PmQ, R };
     for (int i = 0; i < 5; i++) print_x(&in[i]);
 
@@ -230,7 +234,7 @@ op_even_e2e(int ntok, char **tok)
     memcpy(p2, in, sizeof(in));
     ec_curve_t img2 = E;
     ec_eval_small_chain(&img2, &K, n, p2, 5);
-    printf(" naive");
+    fprintf(OUT, " naive");
     print_A(&img2);
     for (int i = 0; i < 5; i++) print_x(&p2[i]);
 
@@ -245,7 +249,7 @@ op_even_e2e(int ntok, char **tok)
         phi.length = (unsigned short)n;
         ec_curve_t img1;
         ec_eval_even(&img1, &phi, p1, 5);
-        printf(" strat");
+        fprintf(OUT, " strat");
         print_A(&img1);
         for (int i = 0; i < 5; i++) print_x(&p1[i]);
         /* Weil pairing cross-check (library's own pairing): e(φP,φQ) vs e(P,Q) */
@@ -257,13 +261,13 @@ op_even_e2e(int ntok, char **tok)
         ec_curve_t Ic = img1;
         ec_curve_normalize_A24(&Ic);
         weil(&e1, F, &p1[1], &p1[2], &p1[3], &Ic.A24);
-        printf(" weil");
+        fprintf(OUT, " weil");
         print_fp2(&e0);
         print_fp2(&e1);
     } else {
-        printf(" strat none");
+        fprintf(OUT, " strat none");
     }
-    printf("\n");
+    fprintf(OUT, "\n");
 }
 
 /* ---------------------------------------------------------------- C12 */
@@ -322,7 +326,7 @@ op_theta_bal(int n)
 static void
 print_codomain(const char *name, theta_chain_t *ch)
 {
-    printf(" %s", name);
+    fprintf(OUT, " %s", name);
     print_j(&ch->codomain.E1);
     print_j(&ch->codomain.E2);
 }
@@ -346,7 +350,7 @@ op_theta_e2e(int ntok, char **tok)
     ibz_sub(&tmp, &two_pow, &u);
     ibz_mul(&tmp, &tmp, &u);
     int found = represent_integer_non_diag(&theta, &tmp, &QUATALG_PINFTY);
-    if (!found) { printf("R notfound\n"); goto done; }
+    if (!found) { fprintf(OUT, "R notfound\n"); goto done; }
 
     ec_curve_t E0;
     e0_curve(&E0);
@@ -365,7 +369,7 @@ op_theta_e2e(int ntok, char **tok)
     endomorphism_application_even_basis(&B0, &E0, &theta, length + 2);
     T1.P2 = B0.P; T2.P2 = B0.Q; T1m2.P2 = B0.PmQ;
 
-    printf("R found len=%x", length);
+    fprintf(OUT, "R found len=%x", length);
     theta_chain_t c1, c2, c3, c4, c5;
     theta_chain_comput_strategy(&c1, length, &E01, &T1, &T2, &T1m2, strategies[F - length], 1);
     print_codomain("strat8", &c1);
@@ -400,7 +404,7 @@ op_theta_e2e(int ntok, char **tok)
         ec_curve_normalize_A24(&Ec);
         ec_point_t bp = Bfull.P, bq = Bfull.Q, bpq = Bfull.PmQ;
         weil(&e0, F, &bp, &bq, &bpq, &Ec.A24);
-        printf(" e0");
+        fprintf(OUT, " e0");
         print_fp2(&e0);
         for (int k = 0; k < 2; k++) {
             theta_couple_point_t in, oP, oQ, oPQ;
@@ -414,12 +418,12 @@ op_theta_e2e(int ntok, char **tok)
             ec_curve_normalize_A24(&C2);
             weil(&e3, F, &oP.P1, &oQ.P1, &oPQ.P1, &C1.A24);
             weil(&e4, F, &oP.P2, &oQ.P2, &oPQ.P2, &C2.A24);
-            printf(k == 0 ? " pair8" : " pair4");
+            fprintf(OUT, k == 0 ? " pair8" : " pair4");
             print_fp2(&e3);
             print_fp2(&e4);
         }
     }
-    printf("\n");
+    fprintf(OUT, "\n");
     free(c1.steps); free(c2.steps); free(c3.steps); free(c4.steps);
 done:
     ibz_finalize(&u); ibz_finalize(&two_pow); ibz_finalize(&tmp);
@@ -437,15 +441,18 @@ main(void)
     randombytes_init(seed, NULL, 256);
     while (fgets(line, sizeof(line), stdin)) {
         int ntok = 0;
+        char *obuf = NULL;
+        size_t olen = 0;
+        OUT = open_memstream(&obuf, &olen);
         for (char *p = strtok(line, " \t\r\n"); p && ntok < MAXTOK; p = strtok(NULL, " \t\r\n")) tok[ntok++] = p;
-        if (ntok == 0) { printf("R bad-op\n"); continue; }
+        if (ntok == 0) { fprintf(OUT, "R bad-op\n"); goto emit; }
         if (!strcmp(tok[0], "even.trace") && ntok == 3) {
-            if ((int)parse_hex(tok[1]) != VERIF_LVL) { printf("R bad-level\n"); continue; }
+            if ((int)parse_hex(tok[1]) != VERIF_LVL) { fprintf(OUT, "R bad-level\n"); goto emit; }
             op_even_trace((int)parse_hex(tok[2]));
         } else if (!strcmp(tok[0], "theta.trace") && ntok == 6) {
             int row = (int)parse_hex(tok[2]);
             if ((int)parse_hex(tok[1]) != VERIF_LVL || row < 0 || row >= (int)(sizeof(strategies) / sizeof(strategies[0]))) {
-                printf("R bad-row\n"); continue;
+                fprintf(OUT, "R bad-row\n"); goto emit;
             }
             run_theta_trace((int)parse_hex(tok[3]), (int)parse_hex(tok[4]), (int)parse_hex(tok[5]), strategies[row]);
         } else if (!strcmp(tok[0], "theta.trace.row") && ntok >= 4) {
@@ -460,8 +467,13 @@ main(void)
         } else if (!strcmp(tok[0], "theta.e2e") && ntok >= 4) {
             op_theta_e2e(ntok, tok);
         } else {
-            printf("R bad-op\n");
+            fprintf(OUT, "R bad-op\n");
         }
+    emit:
+        fclose(OUT);
+        fflush(stdout);
+        printf("\n%s", obuf);
+        free(obuf);
         fflush(stdout);
     }
     return 0;
